@@ -4,7 +4,7 @@
 From Coq Require Import Reals List.
 From MTV.Lib Require Import Base Rlist.
 From MTV.Gen Require Import LogDomain.
-From MTV.Proofs Require Import C04_logdomain.
+From MTV.Proofs Require Import C04_logdomain C04_tower.
 Import ListNotations.
 Open Scope R_scope.
 
@@ -50,3 +50,22 @@ Proof.
   intros xs dV x Hne HdV. split; [exact (norm_uses_max_shift xs dV x)|exact (marg_slice_sum_range xs dV Hne HdV)].
 Qed.
 Print Assumptions C04_normalise_stable.
+
+(* composition: a slice marginalised in two parts combines by log-sum-exp; marginalising one axis after the other
+   (cell sizes dV1, dV2) is marginalising both at once with cell size dV1 dV2, for any number and lengths of non-empty
+   rows; a normalised slice is a fixed point of normalisation.  Nothing is lost or gained between steps. *)
+Theorem C04_marginalise_in_parts : forall xs ys dV, xs <> [] -> ys <> [] -> 0 < dV ->
+  marg_slice (xs ++ ys) dV = ln (exp (marg_slice xs dV) + exp (marg_slice ys dV)).
+Proof. exact marg_slice_split. Qed.
+Print Assumptions C04_marginalise_in_parts.
+
+Theorem C04_marginalise_successive_axes : forall rows dV1 dV2,
+  rows <> [] -> (forall r, In r rows -> r <> []) -> 0 < dV1 -> 0 < dV2 ->
+  marg_slice (map (fun r => marg_slice r dV1) rows) dV2 = marg_slice (concat rows) (dV1 * dV2).
+Proof. exact marg_successive_axes. Qed.
+Print Assumptions C04_marginalise_successive_axes.
+
+Theorem C04_normalise_idempotent : forall xs dV x, xs <> [] -> 0 < dV ->
+  norm_elt (map (norm_elt xs dV) xs) dV (norm_elt xs dV x) = norm_elt xs dV x.
+Proof. exact norm_idempotent. Qed.
+Print Assumptions C04_normalise_idempotent.
